@@ -33,21 +33,31 @@ Records == { [rec |-> Rec(c), dev |-> Dev(c), name |-> Name(c)] :
 \* verdict programs: [prog, arg, cpu, cpuHard, fsize, tl_us, ml_kib, calib]; runner is added by the check
 BigT == 1000000000     \* 1000 s
 BigM == 1073741824     \* 1 TiB in KiB
-VerdictProgs == {
+\* scen: what the run is meant to exercise; end: how the program ends after it used what it was asked
+\* to use: exit:n | fault:segv (hardware fault) | hang (blocks; the caller cancels the run = caller kill).
+\* A bound that was exceeded must win whatever the end is (Limits!ExpectedStatus).
+P(name, scen, prog, arg, end, cpu, hard, fsize, tl, ml, calib) ==
+  [name |-> name, scen |-> scen, prog |-> prog, arg |-> arg, end |-> end, cpu |-> cpu, cpuHard |-> hard,
+   fsize |-> fsize, tl_us |-> tl, ml_kib |-> ml, calib |-> calib]
+ProgEnds == { [s |-> "", e |-> "exit:0"], [s |-> "-exit3", e |-> "exit:3"], [s |-> "-fault", e |-> "fault:segv"], [s |-> "-hang", e |-> "hang"] }
+VerdictProgs ==
   \* killed by the kernel for its CPU limit (soft 1 s: SIGXCPU; pid 1 ignores it and meets the hard limit)
-  [name |-> "cpu-rlimit",   prog |-> "burn",  arg |-> 0,     cpu |-> 1, cpuHard |-> 2, fsize |-> 0, tl_us |-> BigT, ml_kib |-> BigM, calib |-> FALSE],
-  \* measured CPU time above / below the runner's bound
-  [name |-> "time-over",    prog |-> "burn",  arg |-> 300,   cpu |-> 0, cpuHard |-> 0, fsize |-> 0, tl_us |-> 100000, ml_kib |-> BigM, calib |-> FALSE],
-  [name |-> "time-under",   prog |-> "burn",  arg |-> 40,    cpu |-> 0, cpuHard |-> 0, fsize |-> 0, tl_us |-> 30000000, ml_kib |-> BigM, calib |-> FALSE],
-  \* peak memory above / below / (second run) equal to the runner's bound.  The bound must be above the
-  \* resident size of the runner process itself: ru_maxrss of the child starts from the image it was
-  \* forked from, so a smaller bound is "exceeded" before the program is even executed.
-  [name |-> "mem-over",     prog |-> "touch", arg |-> 81920, cpu |-> 0, cpuHard |-> 0, fsize |-> 0, tl_us |-> BigT, ml_kib |-> 65536, calib |-> FALSE],
-  [name |-> "mem-under",    prog |-> "touch", arg |-> 1024,  cpu |-> 0, cpuHard |-> 0, fsize |-> 0, tl_us |-> BigT, ml_kib |-> BigM, calib |-> FALSE],
-  [name |-> "mem-equal",    prog |-> "touch", arg |-> 40960, cpu |-> 0, cpuHard |-> 0, fsize |-> 0, tl_us |-> BigT, ml_kib |-> BigM, calib |-> TRUE],
+  { P("cpu-rlimit", "cpu-rlimit", "burn", 0, "exit:0", 1, 2, 0, BigT, BigM, FALSE),
+  \* measured CPU time below the runner's bound
+    P("time-under", "under", "burn", 40, "exit:0", 0, 0, 0, 30000000, BigM, FALSE),
+  \* peak memory below / (second run) equal to the runner's bound.  The bound must be above the resident
+  \* size of the runner process itself: ru_maxrss of the child starts from the image it was forked
+  \* from, so a smaller bound is "exceeded" before the program is even executed.
+    P("mem-under", "under", "touch", 1024, "exit:0", 0, 0, 0, BigT, BigM, FALSE),
+    P("mem-equal", "equal", "touch", 40960, "exit:0", 0, 0, 0, BigT, BigM, TRUE),
   \* file growing past / staying below RLIMIT_FSIZE
-  [name |-> "fsize-over",   prog |-> "grow",  arg |-> 262144, cpu |-> 0, cpuHard |-> 0, fsize |-> 65536, tl_us |-> BigT, ml_kib |-> BigM, calib |-> FALSE],
-  [name |-> "fsize-under",  prog |-> "grow",  arg |-> 32768,  cpu |-> 0, cpuHard |-> 0, fsize |-> 65536, tl_us |-> BigT, ml_kib |-> BigM, calib |-> FALSE] }
+    P("fsize-over", "fsize-over", "grow", 262144, "exit:0", 0, 0, 65536, BigT, BigM, FALSE),
+    P("fsize-under", "under", "grow", 32768, "exit:0", 0, 0, 65536, BigT, BigM, FALSE) }
+  \* measured CPU time / peak memory above the runner's bound, crossed with every way of ending afterwards
+  \cup { P("time-over" \o x.s, "time-over", "burn", 300, x.e, 0, 0, 0, 100000, BigM, FALSE) : x \in ProgEnds }
+  \cup { P("mem-over" \o x.s, "mem-over", "touch", 81920, x.e, 0, 0, 0, BigT, 65536, FALSE) : x \in ProgEnds }
+  \* the same ends below the bounds (the table decides)
+  \cup { P("under" \o x.s, "under", "burn", 20, x.e, 0, 0, 0, 30000000, BigM, FALSE) : x \in ProgEnds \ {[s |-> "", e |-> "exit:0"]} }
 
 \* collector grid: cap N, volume relative to the cap, writer speed (chunk, delay)
 Volumes(n) == { v \in {0, n - 1, n, n + 1, n + 2, 2 * n + 3, n + 70000, n + 300000} : v >= 0 }
